@@ -79,7 +79,10 @@ def fromStridesH : Handler := fun j => do
   let st ← listOf (optOf nat) (← field j "strides")
   let tb ← listOf (listOf (optOf nat)) (← field j "tile_bounds")
   let off ← optOf int (← field j "offset")
-  return layoutToJson (fromStrides st tb off)
+  let f42 := match j.getObjVal? "f42" with
+    | .ok (Json.bool b) => b
+    | _ => false
+  return layoutToJson (if f42 then fromStridesF st tb off else fromStrides st tb off)
 
 /-- args: {"layout": L, "shape": [nat], "el": nat, "n1"?: bool (model fix FC10a), "canon"?: bool (canonicalize first)}
     -> {"bounds": …, "steps": …} -/
@@ -124,7 +127,10 @@ def resolveStridedH : Handler := fun j => do
       let st ← listOf (optOf nat) (← field j "strides")
       let tb ← listOf (listOf (optOf nat)) (← field j "tile_bounds")
       let off ← optOf int (← field j "offset")
-      pure (fromStrides st tb off)
+      let f42 := match j.getObjVal? "f42" with
+        | .ok (Json.bool b) => b
+        | _ => false
+      pure (if f42 then fromStridesF st tb off else fromStrides st tb off)
     else layoutOfJson lj
   let sh ← listOf nat (← field j "shape")
   let el ← nat (← field j "el")
